@@ -414,6 +414,10 @@ theorem inv_step {s : St} (h : Inv s) (op : Op) : Inv (step s op).1 := by
   | stream c chunks rerr => exact inv_writes (inv_writeHeader (inv_writeCT h _) _) _
   | xmlBlob c n => exact inv_writes (inv_writeHeader (inv_writeCT h ctXML) c) [xmlHeaderLen, n]
   | jsonpBlob c cb n => exact inv_writes (inv_writeHeader (inv_writeCT h ctJS) c) [cb + 1, n, 2]
+  | flushRC => exact inv_flush h
+  | flushFE => exact inv_flush h
+  | unwrap => exact h
+  | copy chunks rerr => exact inv_writes h (chunks.filter (· ≠ 0))
 
 theorem inv_run {s : St} (h : Inv s) (prog : List Op) : Inv (run s prog) := by
   induction prog generalizing s with
@@ -503,7 +507,7 @@ def carriesStatus : Op → Bool
   | .writeHeader _ | .json _ _ _ | .blob _ _ _ | .noContent _ | .stream _ _ _ | .xmlBlob _ _
   | .jsonpBlob _ _ _ => true
   | .redirect c => !(decide (c < 300 ∨ c > 308))
-  | .write _ | .flush | .before _ | .after _ => false
+  | .write _ | .flush | .before _ | .after _ | .flushRC | .flushFE | .unwrap | .copy _ _ => false
 
 /-- one operation on a response whose headers are out -/
 theorem hv_step_sent {s : St} (hs : Sent s) (op : Op) :
@@ -559,6 +563,13 @@ theorem hv_step_sent {s : St} (hs : Sent s) (op : Op) :
     have : hv (step s (.jsonpBlob c cb n)).1
         = hv (writes (writeHeader (writeCT s ctJS) c) [cb + 1, n, 2]).1 := rfl
     rw [this, hv_writes_sent h1, hv_writeHeader_sent (hs.writeCT _), hv_writeCT]
+    simp [carriesStatus]
+  | flushRC => simpa [carriesStatus, step] using hv_flush_sent hs
+  | flushFE => simpa [carriesStatus, step] using hv_flush_sent hs
+  | unwrap => simp [carriesStatus, step]
+  | copy chunks rerr =>
+    have : hv (step s (.copy chunks rerr)).1 = hv (writes s (chunks.filter (· ≠ 0))).1 := rfl
+    rw [this, hv_writes_sent hs]
     simp [carriesStatus]
 
 theorem Inv.toSent {s : St} (h : Inv s) (hc : s.committed = true) : Sent s :=
@@ -628,6 +639,10 @@ def opEffect (p : Nat) : Op → Eff
   | .stream c _ _ => .commits c
   | .xmlBlob c _ => .commits c
   | .jsonpBlob c _ _ => .commits c
+  | .flushRC => .commits (pend p)
+  | .flushFE => .commits (pend p)
+  | .unwrap => .pending p
+  | .copy chunks _ => if chunks.filter (· ≠ 0) = [] then .pending p else .commits (pend p)
 
 /-- the first status set by a program started with pending status `p` (`none`: the program
     never sends anything) -/
@@ -677,6 +692,15 @@ theorem hv_flush_unsent {s : St} (h : Inv s) (hc : s.committed = false) :
     simp [flush, ensureCommitted_of_committed (ensureCommitted_committed s)]
   rw [this, hv_flush_sent hs]
   exact h1
+
+/-- a non-empty sequence of writes on an uncommitted response commits with the pending status -/
+theorem hv_writes_unsent_cons {s : St} (h : Inv s) (hc : s.committed = false) (n : Nat) (ns : List Nat) :
+    hv (writes s (n :: ns)).1 = committedWith s (pend s.status) := by
+  have h1 := hv_write_unsent h hc n
+  simp only [writes]
+  split
+  · simpa using h1
+  · rw [hv_writes_sent (sent_of_hv_committedWith h1)]; exact h1
 
 /-- one operation on an uncommitted response does what `opEffect` says -/
 theorem step_effect {s : St} (h : Inv s) (hc : s.committed = false) (op : Op) :
@@ -760,6 +784,21 @@ theorem step_effect {s : St} (h : Inv s) (hc : s.committed = false) (op : Op) :
     simp only [opEffect]
     rw [this, hv_writes_sent (sent_of_hv_committedWith h1), h1]
     simp [committedWith, htr]
+  | flushRC => exact hv_flush_unsent h hc
+  | flushFE => exact hv_flush_unsent h hc
+  | unwrap => exact ⟨hc, rfl⟩
+  | copy chunks rerr =>
+    have : (step s (.copy chunks rerr)).1 = (writes s (chunks.filter (· ≠ 0))).1 := rfl
+    simp only [opEffect]
+    cases hl : chunks.filter (· ≠ 0) with
+    | nil =>
+      simp only [if_true]
+      rw [this, hl]
+      exact ⟨hc, rfl⟩
+    | cons n ns =>
+      simp only [List.cons_ne_nil, if_false]
+      rw [this, hl]
+      exact hv_writes_unsent_cons h hc n ns
 
 theorem first_status_run {s : St} (h : Inv s) (hc : s.committed = false) (prog : List Op) :
     (run s prog).raw.sent = firstStatus s.status prog ∧
@@ -1230,6 +1269,15 @@ example : (run (init 0 3) [.after 2, .write 5]).size = 3 ∧
 example : (run (init 200 100) [.after 1, .before 2, .jsonpBlob 201 2 4]).trace
     = [.regA 1, .regB 2, .runB 2] ++ .hdr 201 :: [.body 3, .runA 1, .body 4, .runA 1, .body 2, .runA 1] := by
   decide
+
+/-- a first flush issued through http.ResponseController commits like `Flush` itself: the
+    before-hook runs, 200 goes out once, the later status is ignored and logged -/
+example : (run (init 200 100) [.before 7, .flushRC, .writeHeader 404]).trace
+    = [.regB 7, .runB 7, .hdr 200, .rflush, .warn] := by decide
+/-- io.Copy into the response: every chunk is a `Write`, so the after-hook runs after each -/
+example : (run (init 200 100) [.after 1, .copy [2, 0, 3] false]).trace
+    = [.regA 1, .hdr 200, .body 2, .runA 1, .body 3, .runA 1] := by decide
+example : firstStatus 0 [.unwrap, .copy [0] false, .copy [0, 4] true, .writeHeader 500] = some 200 := by decide
 
 /-! ## the unrepaired code violates the invariant (F5, F6)
 
